@@ -548,4 +548,53 @@ theorem ignUnder_list (cfg : Cfg) : (cs : Children) → ∀ rn ∈ cs, IgnUnder 
     · exact ignUnder_list cfg rest rn h
 end
 
+/-- `BaseAt E₀ p e`: the baseline tree `E₀` has the entry `e` at path `p` (paths formed as
+the scan forms them). -/
+inductive BaseAt (E₀ : Entry) : String → Entry → Prop
+  | root : BaseAt E₀ "" E₀
+  | child (p : String) (bb : Entry) (name : Name) (e : Entry) :
+      BaseAt E₀ p bb → lookup name bb.children = some e → BaseAt E₀ (joinable p ++ name) e
+
+theorem trackedKeyL_of_lookup (pfx : String) (name : Name) (e : Entry) (k : String × Bool) :
+    ∀ cs : Contents, lookup name cs = some e → TrackedKey (pfx ++ name) e k → TrackedKeyL pfx cs k
+  | [], h, _ => by cases h
+  | (m, c) :: r, h, hk => by
+    simp only [lookup] at h
+    simp only [TrackedKeyL]
+    split at h
+    · rename_i hm
+      cases h
+      subst hm
+      exact Or.inl hk
+    · exact Or.inr (trackedKeyL_of_lookup pfx name e k r h hk)
+
+/-- The key of a tracked entry of a sub-tree of the baseline is the key of a tracked
+entry of the baseline. -/
+theorem trackedKey_lift (E₀ : Entry) (p : String) (e : Entry) (k : String × Bool) (h : BaseAt E₀ p e)
+    (hk : TrackedKey p e k) : TrackedKey "" E₀ k := by
+  induction h with
+  | root => exact hk
+  | child p bb name e _ hl ih =>
+    apply ih
+    obtain ⟨pr, cs⟩ := bb
+    simp only [Entry.children] at hl
+    simp only [TrackedKey]
+    right
+    have hne : cs.isEmpty = false := by
+      cases cs with
+      | nil => cases hl
+      | cons _ _ => rfl
+    simp only [hne, Bool.false_eq_true, if_false]
+    exact trackedKeyL_of_lookup (joinable p) name e k cs hl hk
+
+theorem under_empty (cp : String) (h : Under "" cp) : cp = "" := by
+  obtain ⟨s, hs, _⟩ := h
+  have := congrArg String.toList hs
+  simp only [String.toList_append] at this
+  have h2 : cp.toList = [] := by
+    cases hc : cp.toList with
+    | nil => rfl
+    | cons a t => rw [hc] at this; simp at this
+  simpa using h2
+
 end Mutagen.Proofs.ScanIgnKeys
